@@ -584,8 +584,10 @@ package flags
 //@   loop 2 invariant namespaceDelimiter == parserOf(option.group).NamespaceDelimiter
 //@   loop 2 invariant (g != nil ==> use(wf_group, g)) && unfold(nsName(g, namespaceDelimiter, longName))
 //@   loop 2 invariant nsName(g, namespaceDelimiter, longName) == nsName(option.group, namespaceDelimiter, option.LongName)
+//@   loop 2 invariant longName != ""
 //@   loop 2 decreases ite(g == nil, 0, gdepth(g) + 1)
 //@   ensures[C07,C08,C13] len(option.LongName) == 0 ==> r == ""
+//@   ensures[C17] len(option.LongName) != 0 ==> r != ""
 //@   ensures[C07,C08,C13] len(option.LongName) != 0 ==> r == nsName(option.group, parserOf(option.group).NamespaceDelimiter, option.LongName)
 //@   assigns nothing
 
@@ -1268,11 +1270,20 @@ package flags
 // description come the default - the mask when there is one (nothing for the
 // mask "-"), otherwise the literal default, never both - and the environment
 // variable.
+// bufRunes(b): how many characters b holds (ghost).  Appending a string adds at
+// most its own character count (bytes at the seam can only merge), appending a
+// rune adds one; a new buffer is empty.
+//@ ghost bufRunes(b *bytes.Buffer) int
 //@ assumed func bytes.Buffer.WriteString(b *bytes.Buffer, s string) (n int, err error)
 //@   traced
+//@   assigns bufRunes(b)
+//@   ensures old(bufRunes(b)) <= bufRunes(b) && bufRunes(b) <= old(bufRunes(b)) + utf8.RuneCountInString(s)
 //@ assumed func bytes.Buffer.WriteRune(b *bytes.Buffer, r rune) (n int, err error)
 //@   traced
+//@   assigns bufRunes(b)
+//@   ensures bufRunes(b) == old(bufRunes(b)) + 1
 //@ assumed func bytes.Buffer.Bytes(b *bytes.Buffer) (r []byte)
+//@   ensures utf8.RuneCount(r) == bufRunes(b)
 //@ assumed func bytes.Buffer.WriteTo(b *bytes.Buffer, w io.Writer) (n int64, err error)
 //@   traced
 //@ assumed func bufio.Writer.WriteString(b *bufio.Writer, s string) (n int, err error)
@@ -1282,16 +1293,34 @@ package flags
 //@   ensures 0 <= n
 //@ assumed func strings.Repeat(s string, count int) (r string)
 //@   pure
+//@   requires[C17] count >= 0
 //@   ensures nwd(s) == "" ==> nwd(r) == ""
+//@   ensures s == " " ==> utf8.RuneCountInString(r) == count
+// Character counts under concatenation (facts about UTF-8 decoding, trusted):
+// bytes at the seam can merge into one character - at most four bytes into
+// one - and never split; nothing merges when the right part starts with an
+// ASCII byte or is empty.
+//@ axiom manual rc_sub: forall a string, b string :: utf8.RuneCountInString(a + b) <= utf8.RuneCountInString(a) + utf8.RuneCountInString(b)
+//@ axiom manual rc_super: forall a string, b string :: utf8.RuneCountInString(a + b) >= utf8.RuneCountInString(a) + utf8.RuneCountInString(b) - 3
+//@ axiom manual rc_ascii: forall a string, b string :: len(b) == 0 || b[0] < 128 ==> utf8.RuneCountInString(a + b) == utf8.RuneCountInString(a) + utf8.RuneCountInString(b)
+//@ axiom rc_consts: utf8.RuneCountInString("") == 0 && utf8.RuneCountInString("  ") == 2 && utf8.RuneCountInString(", ") == 2 && utf8.RuneCountInString("--") == 2 && utf8.RuneCountInString(":") == 1
 
 //@ pure func helpDefault(o *Option) string = ite(len(o.DefaultMask) != 0, ite(o.DefaultMask != "-", o.DefaultMask, ""), o.defaultLiteral)
 //@ pure func helpEnv(o *Option) string = ite(o.EnvKeyWithNamespace() != "", " [$" + o.EnvKeyWithNamespace() + "]", "")
 //@ pure func helpDesc(o *Option) string = ite(helpDefault(o) != "", o.Description + " (default: " + helpDefault(o) + ")" + helpEnv(o), o.Description + helpEnv(o))
 
+// The option column was sized for this option (C17): the flags say that a
+// short name / a value name occurs, and the width covers the option's long
+// name, value name and choices, counted in characters, plus the indentation.
+//@ pure func choicesText(o *Option) string = ite(len(o.Choices) != 0, "[" + strings.Join(o.Choices, "|") + "]", "")
+//@ pure func optWidth(o *Option) int = utf8.RuneCountInString(longNameWithNS(o) + o.ValueName + choicesText(o))
+//@ pure func alignOK(maxLongLen int, hasShort bool, hasValueName bool, indent bool, o *Option) bool = (o.ShortName != 0 ==> hasShort) && (len(o.ValueName) > 0 ==> hasValueName) && optWidth(o) + ite(indent, 4, 0) <= maxLongLen
 //@ func (p *Parser) writeHelpOption(writer *bufio.Writer, option *Option, info alignmentInfo)
-//@   props C16 C04
+//@   props C16 C17 C04
 //@   traced
 //@   requires option != nil && use(wf_option, option)
+//@   requires[C17] !option.Hidden ==> alignOK(info.maxLongLen, info.hasShort, info.hasValueName, info.indent, option)
+//@   requires use(rc_super, longNameWithNS(option), option.ValueName) && use(rc_ascii, longNameWithNS(option), option.ValueName) && use(rc_ascii, longNameWithNS(option) + option.ValueName, choicesText(option))
 //@   ensures[C16] option.Hidden ==> ncalls(bufio.Writer.WriteString) == old(ncalls(bufio.Writer.WriteString)) && ncalls(bytes.Buffer.WriteTo) == old(ncalls(bytes.Buffer.WriteTo))
 //@   ensures[C16] !option.Hidden ==> ncalls(bytes.Buffer.WriteTo) == old(ncalls(bytes.Buffer.WriteTo)) + 1
 //@   ensures[C16] !option.Hidden && option.Description != "" ==> ncalls(wrapText) == old(ncalls(wrapText)) + 1 && callarg(wrapText, old(ncalls(wrapText)), 0) == helpDesc(option)
@@ -1309,7 +1338,7 @@ package flags
 //@   traced
 //@ assumed func utf8.RuneCountInString(s string) (n int)
 //@   pure
-//@   ensures 0 <= n
+//@   ensures 0 <= n && (s != "" ==> n >= 1)
 
 //@ func maxCommandLength(s []*Command) (r int)
 //@   props C16 C17 C04
